@@ -152,7 +152,8 @@ def summarize(name, lines, meta, res, t_run):
         if r["diff"]:
             d = r["diff"]
             problems.append({"type": "diff", "hid": hid, "line": r["line"], "idx": d["idx"],
-                             "fields": sorted(d["fields"]), "model": d["model"], "impl": d["impl"], **cls})
+                             "fields": sorted(d["fields"]), "first_by_field": d.get("first_by_field", {}),
+                             "model": d["model"], "impl": d["impl"], **cls})
         for (i, o, ex) in r["oracles"]:
             problems.append({"type": "oracle", "hid": hid, "line": r["line"], "idx": i, "oracle": o,
                              "disc": ex.get("disc", "1"), "d4": ex.get("d4", "0"),
